@@ -427,6 +427,8 @@ def make_contribs(letter, have=('H2', 'He')):
             pairs = [q for q in (['H2-He', 'H2-H2'] if p == 'cia' else ['H2-H2'])
                      if all(x in have for x in q.split('-'))]
             out.append(C.CIAContribution(cia_pairs=pairs))
+        elif p == 'cia0':       # a collision-induced source left without pairs (its default): a source without components
+            out.append(C.CIAContribution())
         elif p == 'clouds':
             out.append(C.SimpleCloudsContribution(clouds_pressure=gv('cl.p', 2e3)))
         elif p == 'lee':
@@ -921,9 +923,11 @@ def hist_ops(hist, extra):
 # (b) spectrum dictionaries
 # ================================================================================================
 GRIDS = {'g3': [900.0, 2200.0, 4400.0], 'g2': [1200.0, 3600.0], 'g4out': [300.0, 1100.0, 2900.0, 7000.0],
-         'g5': [600.0, 1250.0, 2000.0, 3100.0, 5200.0]}
+         'g5': [600.0, 1250.0, 2000.0, 3100.0, 5200.0],
+         # the mid-points between these centres, and the upper end of the last bin, are native points (1500, 3000, 4500)
+         'gedge': [750.0, 2250.0, 3750.0]}
 WIDTHS = {'g3': [640.0, 910.0, 1530.0], 'g2': [1000.0, 2100.0], 'g4out': [150.0, 700.0, 1300.0, 900.0],
-          'g5': [300.0, 410.0, 520.0, 930.0, 1840.0]}
+          'g5': [300.0, 410.0, 520.0, 930.0, 1840.0], 'gedge': [1500.0, 1500.0, 1500.0]}
 BINNERS = ['native', 'simple', 'simpleW', 'flux', 'fluxW', 'fluxWrev', 'fluxS']
 
 
@@ -956,7 +960,7 @@ def spectrum_case(case):
     fx.reset_caches()
     register_opacities()
     m = build_model({'kind': case['kind'], 'N': case['N'], 'temp': 'npoint0' if case['N'] > 1 else 'iso', 'gases': 'three',
-                     'contribs': 'abs+ray'})
+                     'contribs': 'abs+ray+cia0'})
     res = m.model()
     wn, flux, tau = [np.array(x, dtype=float) for x in res[:3]]
     size = case['size']
@@ -1128,7 +1132,7 @@ def explore(ctx):
     ctx.bounds['a.cases'] = len(ca)
     # (b)
     kinds = ['T', 'E3', 'D2']
-    grids = ['g3', 'g2', 'g4out', 'g5'] if thorough else ['g3', 'g4out']
+    grids = ['g3', 'g2', 'g4out', 'g5', 'gedge'] if thorough else ['g3', 'g4out', 'gedge']
     Ns = [1, 2, 6] if thorough else [2, 6]
     cb = []
     for bl, size, kind, N, grid in itertools.product(BINNERS, ['heavy', 'light', 'lighter'], kinds, Ns, grids):
